@@ -25,6 +25,7 @@ THEOREMS = [
     "Optyx.Props.C08.lp_pipeline_faithful",
     "Optyx.Props.C08.feasible_iff",
     "Optyx.Props.C08.lpStatus_table",
+    "Optyx.Props.Glue.lpGlue_text",
 ]
 ASSUMPTIONS = [
     "scipy.optimize.linprog meets its documented contract on the data it is given (LinprogContract): the inside of HiGHS is trusted",
